@@ -31,6 +31,12 @@ C->S : NIfTI files with exactly known rational affines (signed permutations,
          The plan's affine is expressed in its own small length unit (a pure
          change of unit of oracle and observation alike) so that the exact
          rationals stay small;
+       * scaled label volumes: uint32 / uint64 files holding values above 2^24
+         whose header carries a slope only / an intercept only / both,
+         described with --ignore-scaling through the real command line
+         main(argv) and the API: the values the conversion will write are the
+         stored ones, the stated type must hold them (float32 cannot).  The
+         exit status is not judged (the statement does not mention it);
        * declared spatial unit: files whose header declares micron, meter, mm
          or no unit (xyzt_units).  The package reads every affine as
          millimetres (documented in nibabel_image_to_info); weaker reading
@@ -248,6 +254,29 @@ def make_fine_plan(rng, nrng, kind, sp, sub):
     return p, data
 
 
+# header scalings for label volumes: slope only / intercept only / both
+LABEL_SCALINGS = [(2.0, 0.0), (0.5, 0.0), (3.0, 0.0), (1.0, 1.0), (1.0, -1024.0), (1.0, 10.0),
+                  (2.0, 1.0), (0.5, -2.5), (0.25, 1.0)]
+
+
+def make_label_plan(rng, nrng, kind, sp, scaling):
+    """uint32 / uint64 label volume holding values above 2^24 (float32 cannot
+    hold them) in a file whose header carries a scaling, described with
+    --ignore-scaling: the values the conversion will write are the stored ones"""
+    while True:
+        p, data = make_plan(rng, nrng, kind, sp)
+        if p["layout"] in ("3d", "4d"):
+            break
+    dt = np.dtype(rng.choice(["uint32", "uint64"]))
+    lab = nrng.integers(0, rng.choice([2 ** 10, 2 ** 20, 2 ** 26, 2 ** 31]), size=data.shape, dtype=np.int64)
+    lab.flat[rng.randrange(lab.size)] = rng.randint(2 ** 24 + 1, 2 ** 31 - 1)
+    p["dtype"] = dt.name
+    p["slope"], p["inter"] = scaling
+    p["ignore_scaling"] = True
+    p["labels"] = True
+    return p, lab.astype(dt)
+
+
 XYZT_UNITS = ["micron", "meter", "mm", "unknown"]
 
 
@@ -401,7 +430,7 @@ def sig_of(p, res, clause, case):
             "nifti_version": p["nifti"], "scaled": p.get("slope") is not None,
             "ignore_scaling": bool(p.get("ignore_scaling")), "sharding": bool(p.get("sharding")),
             "pixdim_disagrees": bool(p.get("pixdim")), "qform": p.get("qform", "same"),
-            "declared_unit": p.get("xyzt", "default"), "fine_voxels": p.get("fine", ""),
+            "declared_unit": p.get("xyzt", "default"), "labels_above_2p24": bool(p.get("labels")), "fine_voxels": p.get("fine", ""),
             "exc": res.get("exc", ""), "where": res.get("where", ""), "srcs": srcs,
             "nonrat": sorted({n for o in case["obs"] for n in o.get("nonrat", [])})}
 
@@ -515,6 +544,11 @@ def run(ctx):
     for k in range(ctx.pick(40, 1000)):
         plans.append(make_fine_plan(rng4, nrng4, ("perm", "rot", "shear")[(k // len(subs)) % 3], sp,
                                     subs[k % len(subs)]))
+    rng6 = random.Random(ctx.seed * 1000003 + 16 + 5 * 7919)
+    nrng6 = ctx.np_rng(6)
+    for k in range(ctx.pick(27, 630)):
+        plans.append(make_label_plan(rng6, nrng6, ("perm", "rot", "shear")[(k // 9) % 3], sp,
+                                     LABEL_SCALINGS[k % 9]))
     histories = [make_history(rng3, nrng3, sp, ("replaced", "scaling_toggle")[k % 2])
                  for k in range(ctx.pick(24, 600))]
     rng5 = random.Random(ctx.seed * 1000003 + 16 + 4 * 7919)
@@ -641,6 +675,7 @@ def run(ctx):
         "header_scaled": sum(1 for d in done if d[0].get("slope") is not None),
         "pixdim_disagrees_with_affine": sum(1 for d in done if d[0].get("pixdim")),
         "fine_voxels_not_whole_nm": {u: sum(1 for d in done if d[0].get("fine") == u) for u in sorted(FINE)},
+        "scaled_label_volumes_above_2p24_ignore_scaling": sum(1 for d in done if d[0].get("labels")),
         "fine_voxels_nifti1": sum(1 for d in done if d[0].get("fine") and d[0]["nifti"] == 1),
         "declared_spatial_unit": {u: sum(1 for d in done if d[0].get("xyzt") == u) for u in XYZT_UNITS},
         "generations_judged_per_case": "file, api, api2 (same image object, other sharding), store "
